@@ -941,7 +941,7 @@ func ruleCallbackPairing(c *Ctx, rule string) {
 	c.Rule(rule, "callback pairing: OnAllocationCreated/OnPermissionCreated/OnChannelCreated are called in the function that inserts the entry, dominated by the insert; OnAllocationDeleted/OnPermissionDeleted/OnChannelDeleted are called in the function that removes the entry and only on a path where an entry was actually found (a lookup of the table yielded a present/non-nil entry), so that a second removal of the same key emits nothing", 6)
 	type cb struct {
 		name, fn, recvT, table string
-		created             bool
+		created                bool
 	}
 	cbs := []cb{
 		{"OnAllocationCreated", "CreateAllocation", "Manager", "allocations", true},
